@@ -5,8 +5,8 @@
 # 3: build fault. Nothing is kept outside <out.json>.
 set -u
 D="$(cd "$(dirname "$0")/.." && pwd)/bounded"
-# which driver serves which property (C07 shares the cache driver of C06)
-driver() { case "$1" in C07) echo c06;; *) echo "$1" | tr 'A-Z' 'a-z';; esac; }
+# which driver serves which property (C07 shares the cache driver of C06, C16 the pipeline driver of C14)
+driver() { case "$1" in C07) echo c06;; C16) echo c14;; *) echo "$1" | tr 'A-Z' 'a-z';; esac; }
 if [ "$1" = "--has" ]; then [ -d "$D/$(driver "$2")" ]; exit $?; fi
 PROP="$1"; REPO="$(readlink -f "$2")"; TIER="$3"; OUT="$4"; shift 4
 P=$(driver "$PROP")
@@ -24,6 +24,10 @@ case "$PROP:$TIER" in
   C06:*) ARGS="-len 3 -check remote";;
   C07:quick) ARGS="-len 2 -check view";;
   C07:*) ARGS="-len 3 -check view";;
+  C08:quick) ARGS="-paths 6 -reps 2";;
+  C08:*) ARGS="-paths 9 -reps 1";;
+  C14:*) ARGS="-check tasks -n 3";;
+  C16:*) ARGS="-check try";;
   C13:quick) ARGS="-len 3";;
   C13:*) ARGS="-len 4";;
   C15:quick) ARGS="-res 2 -reps 3";;
